@@ -11,6 +11,14 @@ import (
 	"go.dedis.ch/kyber/v4"
 	"go.dedis.ch/kyber/v4/encrypt/ecies"
 	"go.dedis.ch/kyber/v4/group/edwards25519"
+	"go.dedis.ch/kyber/v4/group/edwards25519vartime"
+	"go.dedis.ch/kyber/v4/group/p256"
+	"go.dedis.ch/kyber/v4/pairing/bls12381/circl"
+	"go.dedis.ch/kyber/v4/pairing/bls12381/gnark"
+	"go.dedis.ch/kyber/v4/pairing/bls12381/kilic"
+	"go.dedis.ch/kyber/v4/pairing/bn254"
+	"go.dedis.ch/kyber/v4/pairing/bn256"
+	"math/big"
 	"go.dedis.ch/kyber/v4/proof"
 	"go.dedis.ch/kyber/v4/proof/dleq"
 	"go.dedis.ch/kyber/v4/share"
@@ -258,6 +266,111 @@ func moreScenarios() []scenario {
 			}
 		}})
 	}
-	_ = edwards25519.NewBlakeSHA256Ed25519
+	// a scalar decoded from a non-reduced encoding (the Ed25519 decoder accepts any 32 bytes)
+	for _, gn := range []string{"ed25519", "ed25519-vt"} {
+		gn := gn
+		out = append(out, scenario{name: gn + " scalar (decoded from l+5)", pairsOf: allPairs, build: func() []method {
+			g := groups.ByName(gn)
+			if g == nil {
+				return nil
+			}
+			v := new(big.Int).Add(g.Order, big.NewInt(5))
+			be := v.FillBytes(make([]byte, 32))
+			le := make([]byte, 32)
+			for i := range be {
+				le[31-i] = be[i]
+			}
+			a := g.Scalar()
+			if err := a.UnmarshalBinary(le); err != nil {
+				return nil
+			}
+			o := sc(g, "unred-o")
+			P := g.Point().Base()
+			enc := func(s kyber.Scalar) []byte { b, _ := s.MarshalBinary(); return b }
+			return []method{
+				{"MarshalBinary", func() []byte { return enc(a) }},
+				{"String", func() []byte { return []byte(a.String()) }},
+				{"Equal", func() []byte { return b2(a.Equal(o)) }},
+				{"Clone", func() []byte { return enc(a.Clone()) }},
+				{"operand of Add", func() []byte { return enc(g.Scalar().Add(a, o)) }},
+				{"operand of Mul", func() []byte { return enc(g.Scalar().Mul(o, a)) }},
+				{"Point.Mul(s,P)", func() []byte { return fmod.Enc(g.Point().Mul(a, P)) }},
+			}
+		}})
+	}
+	// first use of a freshly constructed suite: whatever a suite object builds lazily must tolerate two first users
+	type mkSuite struct {
+		name string
+		mk   func() []kyber.Group
+	}
+	fresh := []mkSuite{
+		{"ed25519", func() []kyber.Group { return []kyber.Group{edwards25519.NewBlakeSHA256Ed25519()} }},
+		{"ed25519vartime", func() []kyber.Group { return []kyber.Group{edwards25519vartime.NewBlakeSHA256Ed25519(false)} }},
+		{"p256", func() []kyber.Group { return []kyber.Group{p256.NewBlakeSHA256P256()} }},
+		{"qr512", func() []kyber.Group { return []kyber.Group{p256.NewBlakeSHA256QR512()} }},
+		{"bn256", func() []kyber.Group { s := bn256.NewSuite(); return []kyber.Group{s.G1(), s.G2(), s.GT()} }},
+		{"bn254", func() []kyber.Group { s := bn254.NewSuite(); return []kyber.Group{s.G1(), s.G2(), s.GT()} }},
+		{"kilic", func() []kyber.Group { s := kilic.NewBLS12381Suite(); return []kyber.Group{s.G1(), s.G2(), s.GT()} }},
+		{"circl", func() []kyber.Group { s := circl.NewSuite(); return []kyber.Group{s.G1(), s.G2(), s.GT()} }},
+		{"gnark", func() []kyber.Group { s := gnark.NewSuite(); return []kyber.Group{s.G1(), s.G2(), s.GT()} }},
+	}
+	for _, fs := range fresh {
+		fs := fs
+		out = append(out, scenario{name: "freshly constructed suite " + fs.name, pairsOf: allPairs, build: func() []method {
+			gs := fs.mk()
+			g := gs[0]
+			k := g.Scalar().SetInt64(77)
+			B := g.Point().Null() // no arithmetic before the fork
+			ms := []method{
+				{"Neg", func() []byte { return fmod.Enc(g.Point().Neg(B)) }},
+				{"Sub", func() []byte { return fmod.Enc(g.Point().Sub(B, B)) }},
+				{"Add", func() []byte { return fmod.Enc(g.Point().Add(B, B)) }},
+				{"Mul(k,nil)", func() []byte { return fmod.Enc(g.Point().Mul(k, nil)) }},
+				{"Base", func() []byte { return fmod.Enc(g.Point().Base()) }},
+				{"Scalar ops", func() []byte { b, _ := g.Scalar().Neg(g.Scalar().One()).MarshalBinary(); return b }},
+				{"Pick", func() []byte { return fmod.Enc(g.Point().Pick(alpha.Stream("c20-fresh-pick"))) }},
+			}
+			if hp, ok := g.Point().(kyber.HashablePoint); ok {
+				_ = hp
+				ms = append(ms, method{"Hash", func() []byte { return fmod.Enc(g.Point().(kyber.HashablePoint).Hash([]byte("c20 fresh"))) }})
+			}
+			if len(gs) > 1 {
+				g2 := gs[1]
+				ms = append(ms, method{"G2 Neg", func() []byte { return fmod.Enc(g2.Point().Neg(g2.Point().Null())) }},
+					method{"G2 Mul(k,nil)", func() []byte { return fmod.Enc(g2.Point().Mul(g2.Scalar().SetInt64(5), nil)) }})
+			}
+			return ms
+		}})
+	}
+	// suites with a caller-supplied domain-separation tag of an odd length: concurrent hash-to-group
+	dst := []byte("VERIF-C20-DOMAIN-SEPARATION-TAG-OF-43-BYTES")
+	out = append(out, scenario{name: "bn254 suite with custom DST", pairsOf: allPairs, build: func() []method {
+		s := bn254.NewSuite()
+		s.SetDomainG1(append([]byte{}, dst...))
+		s.SetDomainG2(append([]byte{}, dst...))
+		h := func(g kyber.Group, m string) func() []byte {
+			return func() []byte {
+				hp, ok := g.Point().(kyber.HashablePoint)
+				if !ok {
+					return nil
+				}
+				return fmod.Enc(hp.Hash([]byte(m)))
+			}
+		}
+		return []method{{"G1 Hash(a)", h(s.G1(), "a")}, {"G1 Hash(b)", h(s.G1(), "b")}, {"G2 Hash(a)", h(s.G2(), "a")}}
+	}})
+	out = append(out, scenario{name: "kilic suite with custom DST", pairsOf: allPairs, build: func() []method {
+		s := kilic.NewBLS12381SuiteWithDST(append([]byte{}, dst...), append([]byte{}, dst...))
+		h := func(g kyber.Group, m string) func() []byte {
+			return func() []byte {
+				hp, ok := g.Point().(kyber.HashablePoint)
+				if !ok {
+					return nil
+				}
+				return fmod.Enc(hp.Hash([]byte(m)))
+			}
+		}
+		return []method{{"G1 Hash(a)", h(s.G1(), "a")}, {"G1 Hash(b)", h(s.G1(), "b")}, {"G2 Hash(a)", h(s.G2(), "a")}, {"G2 Hash(b)", h(s.G2(), "b")}}
+	}})
 	return out
 }
